@@ -152,6 +152,9 @@ func chanField(v ssa.Value) string {
 func (e *Engine) closeOnly(v ssa.Value) bool {
 	_, sent := e.chanUse()
 	if f := chanField(v); f != "" {
+		if !strings.HasPrefix(f, "websocket.") && !strings.HasPrefix(f, "wsjson.") {
+			return false // a channel field of a foreign struct (time.Timer.C): others send on it
+		}
 		return !sent[f]
 	}
 	for {
@@ -173,14 +176,14 @@ func (e *Engine) sendEnabled(st *State, ch *smt.Term) *smt.Term {
 	return c.And(c.Not(c.Select(e.chMine(st), ch)), c.Fresh("env$room", smt.Bool))
 }
 
-func (e *Engine) doRecv(st *State, ch *smt.Term, elem types.Type, commaOk bool, closeOnly bool) Value {
+func (e *Engine) doRecv(st *State, ch *smt.Term, elem types.Type, commaOk bool, closeOnly bool, lockLike bool) Value {
 	c := e.C
 	// a value buffered by this goroutine is consumed; on a closed channel the zero value arrives
 	closed := c.Select(e.chClosed(st), ch)
 	mine := c.Select(e.chMine(st), ch)
 	if closeOnly {
 		mine = c.False()
-	} else {
+	} else if lockLike {
 		st.Heap["chan.mine"] = c.Store(e.chMine(st), ch, c.False())
 	}
 	var v Value
@@ -231,7 +234,7 @@ func (e *Engine) recv(st *State, fr *Frame, x *ssa.UnOp, chv Value) Value {
 	co := e.closeOnly(x.X)
 	st.Assume(e.recvEnabled(st, ch, co))
 	elem := under(x.X.Type()).(*types.Chan).Elem()
-	return e.doRecv(st, ch, elem, x.CommaOk, co)
+	return e.doRecv(st, ch, elem, x.CommaOk, co, e.lockLike(x.X))
 }
 
 // selectOp explores every enabled case (and default when no case is enabled).
@@ -244,6 +247,7 @@ func (e *Engine) selectOp(st *State, fr *Frame, x *ssa.Select, k func(*State, Va
 		dir types.ChanDir
 		co  bool
 		fld bool
+		lk  bool
 		val Value
 		vt  types.Type
 		el  types.Type
@@ -252,7 +256,7 @@ func (e *Engine) selectOp(st *State, fr *Frame, x *ssa.Select, k func(*State, Va
 	for _, s := range x.States {
 		ch := e.asTerm(st, e.val(fr, s.Chan), s.Chan.Type())
 		e.envStep(st, ch)
-		cc := cs{ch: ch, dir: s.Dir, el: under(s.Chan.Type()).(*types.Chan).Elem(), co: e.closeOnly(s.Chan), fld: chanField(s.Chan) != ""}
+		cc := cs{ch: ch, dir: s.Dir, el: under(s.Chan.Type()).(*types.Chan).Elem(), co: e.closeOnly(s.Chan), fld: chanField(s.Chan) != "", lk: e.lockLike(s.Chan)}
 		if s.Dir == types.SendOnly {
 			cc.val = e.val(fr, s.Send)
 			cc.vt = s.Send.Type()
@@ -304,7 +308,7 @@ func (e *Engine) selectOp(st *State, fr *Frame, x *ssa.Select, k func(*State, Va
 			e.doSend(st2, fr, cs.ch, cs.val, cs.vt, p, cs.fld)
 			k(st2, mkResult(st2, i, nil, -1, c.False()))
 		} else {
-			r := e.doRecv(st2, cs.ch, cs.el, true, cs.co).(*TupleV)
+			r := e.doRecv(st2, cs.ch, cs.el, true, cs.co, cs.lk).(*TupleV)
 			k(st2, mkResult(st2, i, r.V[0], myRecv, r.V[1].(*smt.Term)))
 		}
 	}
@@ -358,4 +362,12 @@ func (e *Engine) chanTermOf(st *State, v Value) *smt.Term {
 	}
 	e.fail("channel argument expected, got %T", v)
 	return nil
+}
+
+// lockLike: a channel field of the library that the library itself sends on (the
+// cap-1 mutex channels and the timeout channels): ownership ("mine") is tracked.
+func (e *Engine) lockLike(v ssa.Value) bool {
+	_, sent := e.chanUse()
+	f := chanField(v)
+	return f != "" && (strings.HasPrefix(f, "websocket.") || strings.HasPrefix(f, "wsjson.")) && sent[f]
 }
